@@ -234,7 +234,11 @@ func cmdVerify(keys []string, tag string, timeoutMs int, verbose bool) int {
 		keys = nil
 		for _, k := range s.specs.Order {
 			c := s.specs.Contracts[k]
-			if !c.Dep && !c.Callback && c.Trusted == "" && s.x.lookupFunc(k) != nil {
+			fk := k
+			if i := strings.Index(k, "@"); i >= 0 {
+				fk = k[:i]
+			}
+			if !c.Dep && !c.Callback && c.Trusted == "" && s.x.lookupFunc(fk) != nil {
 				keys = append(keys, k)
 			}
 		}
@@ -264,10 +268,16 @@ func cmdVerify(keys []string, tag string, timeoutMs int, verbose bool) int {
 		ok := true
 		var worst *Obligation
 		tmax := 0.0
+		anyCoverSat := false
+		for _, o := range os_ {
+			if o.Kind == "cover" && o.Res.Verdict == "sat" {
+				anyCoverSat = true
+			}
+		}
 		for _, o := range os_ {
 			good := o.Res.Verdict == "unsat"
 			if o.Kind == "cover" {
-				good = o.Res.Verdict == "sat"
+				good = o.Res.Verdict == "sat" || anyCoverSat
 			}
 			if !good {
 				ok = false
